@@ -6,164 +6,7 @@ use vstd::std_specs::ops::*;
 use vstd::std_specs::cmp::*;
 verus! {
 
-// ---------------------------------------------------------------------------------------------
-// trusted prelude: contracts of the traits this unit USES but does not verify
-// (Frame/Sample operations are discharged on the real code by the Kani unit sample_frame, C03)
-// ---------------------------------------------------------------------------------------------
-
-pub trait Sample: Copy + PartialOrd {
-    type Signed: Copy + PartialOrd + core::ops::Neg<Output = Self::Signed>;
-    type Float: Copy;
-}
-
-/// sample format conversion (dasp_sample::Sample::to_sample): uninterpreted here, decided by C01/C02
-pub uninterp spec fn conv_spec<A, B>(a: A) -> B;
-pub trait SampleConv: Sized {
-    fn to_sample<S>(self) -> (r: S) ensures r == conv_spec::<Self, S>(self);
-}
-impl<T> SampleConv for T {
-    #[verifier::external_body]
-    fn to_sample<S>(self) -> (r: S) { unimplemented!() }
-}
-
-pub trait Frame: Copy {
-    type Sample: Sample;
-    type NumChannels;
-    type Channels: Iterator<Item = Self::Sample>;
-    /// number of channels (>= 1: dasp_frame implements Frame for N = 1..=32 and bare samples)
-    spec fn nch() -> nat;
-    /// channel i
-    spec fn ch(self, i: int) -> Self::Sample;
-    spec fn equilibrium_spec() -> Self;
-    proof fn nch_positive() ensures Self::nch() >= 1;
-    /// R-assocconst: `F::EQUILIBRIUM` is read through this nullary function
-    #[allow(non_snake_case)]
-    fn EQUILIBRIUM_() -> (r: Self) ensures r == Self::equilibrium_spec();
-}
-
-pub uninterp spec fn add_amp_spec<A, B>(a: A, b: B) -> A;
-pub uninterp spec fn mul_amp_spec<A, B>(a: A, b: B) -> A;
-pub uninterp spec fn scale_amp_spec<A, G>(a: A, g: G) -> A;
-pub uninterp spec fn offset_amp_spec<A, O>(a: A, o: O) -> A;
-
-/// state of the iterator returned by Frame::channels(): the frame and the next channel index
-pub uninterp spec fn channels_ist<F: Frame>(f: F, i: nat) -> <F::Channels as Iterator>::ISt;
-
-pub trait FrameOps: Frame {
-    fn add_amp<F>(self, other: F) -> (r: Self)
-        where F: Frame<Sample = <Self::Sample as Sample>::Signed, NumChannels = Self::NumChannels>
-        ensures r == add_amp_spec(self, other);
-    fn mul_amp<F>(self, other: F) -> (r: Self)
-        where F: Frame<Sample = <Self::Sample as Sample>::Float, NumChannels = Self::NumChannels>
-        ensures r == mul_amp_spec(self, other);
-    fn scale_amp(self, amp: <Self::Sample as Sample>::Float) -> (r: Self)
-        ensures r == scale_amp_spec(self, amp);
-    fn offset_amp(self, offset: <Self::Sample as Sample>::Signed) -> (r: Self)
-        ensures r == offset_amp_spec(self, offset);
-    /// map applies the closure once per channel (in channel order; C03)
-    fn map<F, M>(self, map: M) -> (r: F)
-        where F: Frame<NumChannels = Self::NumChannels>, M: FnMut(Self::Sample) -> F::Sample
-        requires forall|x: Self::Sample| call_requires(map, (x,)),
-        ensures forall|i: int| 0 <= i < Self::nch() ==> call_ensures(map, (self.ch(i),), #[trigger] r.ch(i));
-    /// channels(): yields ch(0), ch(1), .. ch(N-1) then None
-    fn channels(self) -> (r: Self::Channels)
-        ensures r.ist() == channels_ist::<Self>(self, 0);
-    /// from_samples: pulls samples until N were obtained or the iterator returned None
-    fn from_samples<I>(samples: &mut I) -> (r: Option<Self>)
-        where I: Iterator<Item = Self::Sample>
-        ensures
-            (*final(samples)).ist() == take_n::<I>((*old(samples)).ist(), Self::nch()).1,
-            r.is_some() == (take_n::<I>((*old(samples)).ist(), Self::nch()).0.len() == Self::nch()),
-            r.is_some() ==> (forall|i: int| 0 <= i < Self::nch() ==>
-                #[trigger] r.unwrap().ch(i) == take_n::<I>((*old(samples)).ist(), Self::nch()).0[i]);
-}
-impl<T: Frame> FrameOps for T {
-    #[verifier::external_body]
-    fn add_amp<F>(self, other: F) -> (r: Self)
-        where F: Frame<Sample = <Self::Sample as Sample>::Signed, NumChannels = Self::NumChannels>
-    { unimplemented!() }
-    #[verifier::external_body]
-    fn mul_amp<F>(self, other: F) -> (r: Self)
-        where F: Frame<Sample = <Self::Sample as Sample>::Float, NumChannels = Self::NumChannels>
-    { unimplemented!() }
-    #[verifier::external_body]
-    fn scale_amp(self, amp: <Self::Sample as Sample>::Float) -> (r: Self) { unimplemented!() }
-    #[verifier::external_body]
-    fn offset_amp(self, offset: <Self::Sample as Sample>::Signed) -> (r: Self) { unimplemented!() }
-    #[verifier::external_body]
-    fn map<F, M>(self, map: M) -> (r: F)
-        where F: Frame<NumChannels = Self::NumChannels>, M: FnMut(Self::Sample) -> F::Sample
-    { unimplemented!() }
-    #[verifier::external_body]
-    fn channels(self) -> (r: Self::Channels) { unimplemented!() }
-    #[verifier::external_body]
-    fn from_samples<I>(samples: &mut I) -> (r: Option<Self>)
-        where I: Iterator<Item = Self::Sample>
-    { unimplemented!() }
-}
-
-/// the channel iterator behaves as specified (assumed contract on dasp_frame's `Channels`, C03)
-pub broadcast axiom fn ax_channels_next<F: Frame>(f: F, i: nat)
-    ensures #[trigger] <F::Channels as Iterator>::inext(channels_ist::<F>(f, i)) ==
-        (if i < F::nch() { (Some(f.ch(i as int)), channels_ist::<F>(f, i + 1)) }
-         else { (None::<F::Sample>, channels_ist::<F>(f, i)) });
-
-// Local stand-in for core::iter::Iterator: a deterministic state machine.  Nothing is assumed
-// about behaviour after `None` (no fused-iterator assumption).
-pub trait Iterator {
-    type Item;
-    type ISt;
-    spec fn ist(&self) -> Self::ISt;
-    spec fn inext(s: Self::ISt) -> (Option<Self::Item>, Self::ISt);
-    fn next(&mut self) -> (r: Option<Self::Item>)
-        ensures (r, (*final(self)).ist()) == Self::inext((*old(self)).ist());
-}
-pub trait IntoIterator {
-    type Item;
-    type IntoIter: Iterator<Item = Self::Item>;
-    spec fn into_ist(self) -> <Self::IntoIter as Iterator>::ISt;
-    fn into_iter(self) -> (r: Self::IntoIter) ensures r.ist() == self.into_ist();
-}
-
-/// pull up to n items: (items obtained, iterator state afterwards); stops at the first None
-pub open spec fn take_n<I: Iterator>(s: I::ISt, n: nat) -> (Seq<I::Item>, I::ISt)
-    decreases n
-{
-    if n == 0 { (Seq::empty(), s) } else {
-        match I::inext(s).0 {
-            None => (Seq::empty(), I::inext(s).1),
-            Some(x) => {
-                let rest = take_n::<I>(I::inext(s).1, (n - 1) as nat);
-                (seq![x] + rest.0, rest.1)
-            }
-        }
-    }
-}
-
-// ---------------------------------------------------------------------------------------------
-// THE CONTRACT: Signal as a state machine
-// ---------------------------------------------------------------------------------------------
-
-pub trait Signal {
-    type Frame: Frame;
-    /// abstract state
-    type State;
-    spec fn st(&self) -> Self::State;
-    /// side conditions of the value itself (closures callable, ...)
-    spec fn inv(&self) -> bool;
-    /// one `next()`: from state s, yields f and ends in state s2.  May depend on `self` only through
-    /// parts that next() never changes (user closures).
-    spec fn trans(&self, s: Self::State, f: Self::Frame, s2: Self::State) -> bool;
-    /// exhausted in state s
-    spec fn exh(s: Self::State) -> bool;
-
-    fn next(&mut self) -> (f: Self::Frame)
-        requires (*old(self)).inv(),
-        ensures (*final(self)).inv(), (*old(self)).trans((*old(self)).st(), f, (*final(self)).st());
-
-    fn is_exhausted(&self) -> (b: bool)
-        ensures b == Self::exh(self.st());
-}
+//@include _shared/signal_prelude.rs
 
 // ---------------------------------------------------------------------------------------------
 // extracted structs
@@ -194,9 +37,11 @@ pub trait Signal {
 //@impl file=dasp_signal/src/lib.rs header="impl<'a, S> Signal for &'a mut S"
 //@item file=dasp_signal/src/lib.rs in="impl:<'a, S> Signal for &'a mut S" kind=type name=Frame
     type State = S::State;
+    type Cfg = S::Cfg;
     open spec fn st(&self) -> Self::State { (**self).st() }
+    open spec fn cfg(&self) -> Self::Cfg { (**self).cfg() }
     open spec fn inv(&self) -> bool { (**self).inv() }
-    open spec fn trans(&self, s: Self::State, f: Self::Frame, s2: Self::State) -> bool { (**self).trans(s, f, s2) }
+    open spec fn trans(c: Self::Cfg, s: Self::State, f: Self::Frame, s2: Self::State) -> bool { S::trans(c, s, f, s2) }
     open spec fn exh(s: Self::State) -> bool { S::exh(s) }
 //@fn file=dasp_signal/src/lib.rs in="impl:<'a, S> Signal for &'a mut S" name=next label=RefMut::next
 //@end
@@ -211,9 +56,11 @@ pub trait Signal {
 //@item file=dasp_signal/src/lib.rs in="impl:<I> Signal for FromIterator<I>" kind=type name=Frame
     /// (iterator state, one-frame look-ahead)
     type State = (I::ISt, Option<I::Item>);
+    type Cfg = ();
     open spec fn st(&self) -> Self::State { (self.iter.ist(), self.next) }
+    open spec fn cfg(&self) -> Self::Cfg { () }
     open spec fn inv(&self) -> bool { true }
-    open spec fn trans(&self, s: Self::State, f: Self::Frame, s2: Self::State) -> bool {
+    open spec fn trans(c: Self::Cfg, s: Self::State, f: Self::Frame, s2: Self::State) -> bool {
         match s.1 {
             // a frame is pending: yield it and pull exactly one more item
             Some(x) => f == x && s2 == (I::inext(s.0).1, I::inext(s.0).0),
@@ -231,9 +78,11 @@ pub trait Signal {
 //@impl file=dasp_signal/src/lib.rs header="impl<I, F> Signal for FromInterleavedSamplesIterator<I, F>"
 //@item file=dasp_signal/src/lib.rs in="impl:<I, F> Signal for FromInterleavedSamplesIterator<I, F>" kind=type name=Frame
     type State = (I::ISt, Option<F>);
+    type Cfg = ();
     open spec fn st(&self) -> Self::State { (self.samples.ist(), self.next) }
+    open spec fn cfg(&self) -> Self::Cfg { () }
     open spec fn inv(&self) -> bool { true }
-    open spec fn trans(&self, s: Self::State, f: Self::Frame, s2: Self::State) -> bool {
+    open spec fn trans(c: Self::Cfg, s: Self::State, f: Self::Frame, s2: Self::State) -> bool {
         match s.1 {
             Some(x) => f == x
                 && s2.0 == take_n::<I>(s.0, F::nch()).1
@@ -257,13 +106,17 @@ pub trait Signal {
 //@impl file=dasp_signal/src/lib.rs header="impl<S, M, F> Signal for Map<S, M, F>"
 //@item file=dasp_signal/src/lib.rs in="impl:<S, M, F> Signal for Map<S, M, F>" kind=type name=Frame
     type State = S::State;
+    type Cfg = (S::Cfg, M);
     open spec fn st(&self) -> Self::State { self.signal.st() }
+    open spec fn cfg(&self) -> Self::Cfg { (self.signal.cfg(), self.map) }
     open spec fn inv(&self) -> bool { self.signal.inv() && forall|x: S::Frame| call_requires(self.map, (x,)) }
-    open spec fn trans(&self, s: Self::State, f: Self::Frame, s2: Self::State) -> bool {
-        exists|x: S::Frame| #[trigger] self.signal.trans(s, x, s2) && call_ensures(self.map, (x,), f)
+    open spec fn trans(c: Self::Cfg, s: Self::State, f: Self::Frame, s2: Self::State) -> bool {
+        exists|x: S::Frame| #[trigger] S::trans(c.0, s, x, s2) && call_ensures(c.1, (x,), f)
     }
     open spec fn exh(s: Self::State) -> bool { S::exh(s) }
 //@fn file=dasp_signal/src/lib.rs in="impl:<S, M, F> Signal for Map<S, M, F>" name=next label=Map::next
+//@tail
+        proof { let c = (old(self).signal.cfg(), old(self).map); assert(c.0 == old(self).signal.cfg() && c.1 == old(self).map); }
 //@end
 //@fn file=dasp_signal/src/lib.rs in="impl:<S, M, F> Signal for Map<S, M, F>" name=is_exhausted label=Map::is_exhausted
 //@end
@@ -272,18 +125,21 @@ pub trait Signal {
 //@impl file=dasp_signal/src/lib.rs header="impl<S, O, M, F> Signal for ZipMap<S, O, M, F>"
 //@item file=dasp_signal/src/lib.rs in="impl:<S, O, M, F> Signal for ZipMap<S, O, M, F>" kind=type name=Frame
     type State = (S::State, O::State);
+    type Cfg = (S::Cfg, O::Cfg, M);
     open spec fn st(&self) -> Self::State { (self.this.st(), self.other.st()) }
+    open spec fn cfg(&self) -> Self::Cfg { (self.this.cfg(), self.other.cfg(), self.map) }
     open spec fn inv(&self) -> bool {
         self.this.inv() && self.other.inv() && forall|x: S::Frame, y: O::Frame| call_requires(self.map, (x, y))
     }
-    open spec fn trans(&self, s: Self::State, f: Self::Frame, s2: Self::State) -> bool {
-        exists|x: S::Frame, y: O::Frame| #[trigger] self.this.trans(s.0, x, s2.0) && #[trigger] self.other.trans(s.1, y, s2.1)
-            && call_ensures(self.map, (x, y), f)
+    open spec fn trans(c: Self::Cfg, s: Self::State, f: Self::Frame, s2: Self::State) -> bool {
+        exists|x: S::Frame, y: O::Frame| #[trigger] S::trans(c.0, s.0, x, s2.0) && #[trigger] O::trans(c.1, s.1, y, s2.1)
+            && call_ensures(c.2, (x, y), f)
     }
     open spec fn exh(s: Self::State) -> bool { S::exh(s.0) || O::exh(s.1) }
 //@fn file=dasp_signal/src/lib.rs in="impl:<S, O, M, F> Signal for ZipMap<S, O, M, F>" name=next label=ZipMap::next
 //@tail
-        proof { let s = (old(self).this.st(), old(self).other.st()); let s2 = (self.this.st(), self.other.st());
+        proof { let c = (old(self).this.cfg(), old(self).other.cfg(), old(self).map); assert(c.0 == old(self).this.cfg() && c.1 == old(self).other.cfg() && c.2 == old(self).map);
+            let s = (old(self).this.st(), old(self).other.st()); let s2 = (self.this.st(), self.other.st());
             assert(s.0 == old(self).this.st() && s.1 == old(self).other.st() && s2.0 == self.this.st() && s2.1 == self.other.st()); }
 //@end
 //@fn file=dasp_signal/src/lib.rs in="impl:<S, O, M, F> Signal for ZipMap<S, O, M, F>" name=is_exhausted label=ZipMap::is_exhausted
@@ -293,16 +149,19 @@ pub trait Signal {
 //@impl file=dasp_signal/src/lib.rs header="impl<A, B> Signal for AddAmp<A, B>"
 //@item file=dasp_signal/src/lib.rs in="impl:<A, B> Signal for AddAmp<A, B>" kind=type name=Frame
     type State = (A::State, B::State);
+    type Cfg = (A::Cfg, B::Cfg);
     open spec fn st(&self) -> Self::State { (self.a.st(), self.b.st()) }
+    open spec fn cfg(&self) -> Self::Cfg { (self.a.cfg(), self.b.cfg()) }
     open spec fn inv(&self) -> bool { self.a.inv() && self.b.inv() }
-    open spec fn trans(&self, s: Self::State, f: Self::Frame, s2: Self::State) -> bool {
-        exists|x: A::Frame, y: B::Frame| #[trigger] self.a.trans(s.0, x, s2.0) && #[trigger] self.b.trans(s.1, y, s2.1)
+    open spec fn trans(c: Self::Cfg, s: Self::State, f: Self::Frame, s2: Self::State) -> bool {
+        exists|x: A::Frame, y: B::Frame| #[trigger] A::trans(c.0, s.0, x, s2.0) && #[trigger] B::trans(c.1, s.1, y, s2.1)
             && f == add_amp_spec(x, y)
     }
     open spec fn exh(s: Self::State) -> bool { A::exh(s.0) || B::exh(s.1) }
 //@fn file=dasp_signal/src/lib.rs in="impl:<A, B> Signal for AddAmp<A, B>" name=next label=AddAmp::next
 //@tail
-        proof { let s = (old(self).a.st(), old(self).b.st()); let s2 = (self.a.st(), self.b.st());
+        proof { let c = (old(self).a.cfg(), old(self).b.cfg()); assert(c.0 == old(self).a.cfg() && c.1 == old(self).b.cfg());
+            let s = (old(self).a.st(), old(self).b.st()); let s2 = (self.a.st(), self.b.st());
             assert(s.0 == old(self).a.st() && s.1 == old(self).b.st() && s2.0 == self.a.st() && s2.1 == self.b.st()); }
 //@end
 //@fn file=dasp_signal/src/lib.rs in="impl:<A, B> Signal for AddAmp<A, B>" name=is_exhausted label=AddAmp::is_exhausted
@@ -312,16 +171,19 @@ pub trait Signal {
 //@impl file=dasp_signal/src/lib.rs header="impl<A, B> Signal for MulAmp<A, B>"
 //@item file=dasp_signal/src/lib.rs in="impl:<A, B> Signal for MulAmp<A, B>" kind=type name=Frame
     type State = (A::State, B::State);
+    type Cfg = (A::Cfg, B::Cfg);
     open spec fn st(&self) -> Self::State { (self.a.st(), self.b.st()) }
+    open spec fn cfg(&self) -> Self::Cfg { (self.a.cfg(), self.b.cfg()) }
     open spec fn inv(&self) -> bool { self.a.inv() && self.b.inv() }
-    open spec fn trans(&self, s: Self::State, f: Self::Frame, s2: Self::State) -> bool {
-        exists|x: A::Frame, y: B::Frame| #[trigger] self.a.trans(s.0, x, s2.0) && #[trigger] self.b.trans(s.1, y, s2.1)
+    open spec fn trans(c: Self::Cfg, s: Self::State, f: Self::Frame, s2: Self::State) -> bool {
+        exists|x: A::Frame, y: B::Frame| #[trigger] A::trans(c.0, s.0, x, s2.0) && #[trigger] B::trans(c.1, s.1, y, s2.1)
             && f == mul_amp_spec(x, y)
     }
     open spec fn exh(s: Self::State) -> bool { A::exh(s.0) || B::exh(s.1) }
 //@fn file=dasp_signal/src/lib.rs in="impl:<A, B> Signal for MulAmp<A, B>" name=next label=MulAmp::next
 //@tail
-        proof { let s = (old(self).a.st(), old(self).b.st()); let s2 = (self.a.st(), self.b.st());
+        proof { let c = (old(self).a.cfg(), old(self).b.cfg()); assert(c.0 == old(self).a.cfg() && c.1 == old(self).b.cfg());
+            let s = (old(self).a.st(), old(self).b.st()); let s2 = (self.a.st(), self.b.st());
             assert(s.0 == old(self).a.st() && s.1 == old(self).b.st() && s2.0 == self.a.st() && s2.1 == self.b.st()); }
 //@end
 //@fn file=dasp_signal/src/lib.rs in="impl:<A, B> Signal for MulAmp<A, B>" name=is_exhausted label=MulAmp::is_exhausted
@@ -330,17 +192,19 @@ pub trait Signal {
 
 //@impl file=dasp_signal/src/lib.rs header="impl<S> Signal for ScaleAmp<S>"
 //@item file=dasp_signal/src/lib.rs in="impl:<S> Signal for ScaleAmp<S>" kind=type name=Frame
-    type State = (S::State, <<S::Frame as Frame>::Sample as Sample>::Float);
-    open spec fn st(&self) -> Self::State { (self.signal.st(), self.amp) }
+    type State = S::State;
+    /// the gain / offset is configuration: next() never changes it
+    type Cfg = (S::Cfg, <<S::Frame as Frame>::Sample as Sample>::Float);
+    open spec fn st(&self) -> Self::State { self.signal.st() }
+    open spec fn cfg(&self) -> Self::Cfg { (self.signal.cfg(), self.amp) }
     open spec fn inv(&self) -> bool { self.signal.inv() }
-    open spec fn trans(&self, s: Self::State, f: Self::Frame, s2: Self::State) -> bool {
-        exists|x: S::Frame| #[trigger] self.signal.trans(s.0, x, s2.0) && f == scale_amp_spec(x, s.1) && s2.1 == s.1
+    open spec fn trans(c: Self::Cfg, s: Self::State, f: Self::Frame, s2: Self::State) -> bool {
+        exists|x: S::Frame| #[trigger] S::trans(c.0, s, x, s2) && f == scale_amp_spec(x, c.1)
     }
-    open spec fn exh(s: Self::State) -> bool { S::exh(s.0) }
+    open spec fn exh(s: Self::State) -> bool { S::exh(s) }
 //@fn file=dasp_signal/src/lib.rs in="impl:<S> Signal for ScaleAmp<S>" name=next label=ScaleAmp::next
 //@tail
-        proof { let s = (old(self).signal.st(), old(self).amp); let s2 = (self.signal.st(), self.amp);
-            assert(s.0 == old(self).signal.st() && s.1 == old(self).amp && s2.0 == self.signal.st() && s2.1 == self.amp); }
+        proof { let c = (old(self).signal.cfg(), old(self).amp); assert(c.0 == old(self).signal.cfg() && c.1 == old(self).amp); }
 //@end
 //@fn file=dasp_signal/src/lib.rs in="impl:<S> Signal for ScaleAmp<S>" name=is_exhausted label=ScaleAmp::is_exhausted
 //@end
@@ -348,17 +212,19 @@ pub trait Signal {
 
 //@impl file=dasp_signal/src/lib.rs header="impl<S, F> Signal for ScaleAmpPerChannel<S, F>"
 //@item file=dasp_signal/src/lib.rs in="impl:<S, F> Signal for ScaleAmpPerChannel<S, F>" kind=type name=Frame
-    type State = (S::State, F);
-    open spec fn st(&self) -> Self::State { (self.signal.st(), self.amp_frame) }
+    type State = S::State;
+    /// the gain / offset is configuration: next() never changes it
+    type Cfg = (S::Cfg, F);
+    open spec fn st(&self) -> Self::State { self.signal.st() }
+    open spec fn cfg(&self) -> Self::Cfg { (self.signal.cfg(), self.amp_frame) }
     open spec fn inv(&self) -> bool { self.signal.inv() }
-    open spec fn trans(&self, s: Self::State, f: Self::Frame, s2: Self::State) -> bool {
-        exists|x: S::Frame| #[trigger] self.signal.trans(s.0, x, s2.0) && f == mul_amp_spec(x, s.1) && s2.1 == s.1
+    open spec fn trans(c: Self::Cfg, s: Self::State, f: Self::Frame, s2: Self::State) -> bool {
+        exists|x: S::Frame| #[trigger] S::trans(c.0, s, x, s2) && f == mul_amp_spec(x, c.1)
     }
-    open spec fn exh(s: Self::State) -> bool { S::exh(s.0) }
+    open spec fn exh(s: Self::State) -> bool { S::exh(s) }
 //@fn file=dasp_signal/src/lib.rs in="impl:<S, F> Signal for ScaleAmpPerChannel<S, F>" name=next label=ScaleAmpPerChannel::next
 //@tail
-        proof { let s = (old(self).signal.st(), old(self).amp_frame); let s2 = (self.signal.st(), self.amp_frame);
-            assert(s.0 == old(self).signal.st() && s.1 == old(self).amp_frame && s2.0 == self.signal.st() && s2.1 == self.amp_frame); }
+        proof { let c = (old(self).signal.cfg(), old(self).amp_frame); assert(c.0 == old(self).signal.cfg() && c.1 == old(self).amp_frame); }
 //@end
 //@fn file=dasp_signal/src/lib.rs in="impl:<S, F> Signal for ScaleAmpPerChannel<S, F>" name=is_exhausted label=ScaleAmpPerChannel::is_exhausted
 //@end
@@ -366,17 +232,19 @@ pub trait Signal {
 
 //@impl file=dasp_signal/src/lib.rs header="impl<S> Signal for OffsetAmp<S>"
 //@item file=dasp_signal/src/lib.rs in="impl:<S> Signal for OffsetAmp<S>" kind=type name=Frame
-    type State = (S::State, <<S::Frame as Frame>::Sample as Sample>::Signed);
-    open spec fn st(&self) -> Self::State { (self.signal.st(), self.offset) }
+    type State = S::State;
+    /// the gain / offset is configuration: next() never changes it
+    type Cfg = (S::Cfg, <<S::Frame as Frame>::Sample as Sample>::Signed);
+    open spec fn st(&self) -> Self::State { self.signal.st() }
+    open spec fn cfg(&self) -> Self::Cfg { (self.signal.cfg(), self.offset) }
     open spec fn inv(&self) -> bool { self.signal.inv() }
-    open spec fn trans(&self, s: Self::State, f: Self::Frame, s2: Self::State) -> bool {
-        exists|x: S::Frame| #[trigger] self.signal.trans(s.0, x, s2.0) && f == offset_amp_spec(x, s.1) && s2.1 == s.1
+    open spec fn trans(c: Self::Cfg, s: Self::State, f: Self::Frame, s2: Self::State) -> bool {
+        exists|x: S::Frame| #[trigger] S::trans(c.0, s, x, s2) && f == offset_amp_spec(x, c.1)
     }
-    open spec fn exh(s: Self::State) -> bool { S::exh(s.0) }
+    open spec fn exh(s: Self::State) -> bool { S::exh(s) }
 //@fn file=dasp_signal/src/lib.rs in="impl:<S> Signal for OffsetAmp<S>" name=next label=OffsetAmp::next
 //@tail
-        proof { let s = (old(self).signal.st(), old(self).offset); let s2 = (self.signal.st(), self.offset);
-            assert(s.0 == old(self).signal.st() && s.1 == old(self).offset && s2.0 == self.signal.st() && s2.1 == self.offset); }
+        proof { let c = (old(self).signal.cfg(), old(self).offset); assert(c.0 == old(self).signal.cfg() && c.1 == old(self).offset); }
 //@end
 //@fn file=dasp_signal/src/lib.rs in="impl:<S> Signal for OffsetAmp<S>" name=is_exhausted label=OffsetAmp::is_exhausted
 //@end
@@ -384,17 +252,19 @@ pub trait Signal {
 
 //@impl file=dasp_signal/src/lib.rs header="impl<S, F> Signal for OffsetAmpPerChannel<S, F>"
 //@item file=dasp_signal/src/lib.rs in="impl:<S, F> Signal for OffsetAmpPerChannel<S, F>" kind=type name=Frame
-    type State = (S::State, F);
-    open spec fn st(&self) -> Self::State { (self.signal.st(), self.amp_frame) }
+    type State = S::State;
+    /// the gain / offset is configuration: next() never changes it
+    type Cfg = (S::Cfg, F);
+    open spec fn st(&self) -> Self::State { self.signal.st() }
+    open spec fn cfg(&self) -> Self::Cfg { (self.signal.cfg(), self.amp_frame) }
     open spec fn inv(&self) -> bool { self.signal.inv() }
-    open spec fn trans(&self, s: Self::State, f: Self::Frame, s2: Self::State) -> bool {
-        exists|x: S::Frame| #[trigger] self.signal.trans(s.0, x, s2.0) && f == add_amp_spec(x, s.1) && s2.1 == s.1
+    open spec fn trans(c: Self::Cfg, s: Self::State, f: Self::Frame, s2: Self::State) -> bool {
+        exists|x: S::Frame| #[trigger] S::trans(c.0, s, x, s2) && f == add_amp_spec(x, c.1)
     }
-    open spec fn exh(s: Self::State) -> bool { S::exh(s.0) }
+    open spec fn exh(s: Self::State) -> bool { S::exh(s) }
 //@fn file=dasp_signal/src/lib.rs in="impl:<S, F> Signal for OffsetAmpPerChannel<S, F>" name=next label=OffsetAmpPerChannel::next
 //@tail
-        proof { let s = (old(self).signal.st(), old(self).amp_frame); let s2 = (self.signal.st(), self.amp_frame);
-            assert(s.0 == old(self).signal.st() && s.1 == old(self).amp_frame && s2.0 == self.signal.st() && s2.1 == self.amp_frame); }
+        proof { let c = (old(self).signal.cfg(), old(self).amp_frame); assert(c.0 == old(self).signal.cfg() && c.1 == old(self).amp_frame); }
 //@end
 //@fn file=dasp_signal/src/lib.rs in="impl:<S, F> Signal for OffsetAmpPerChannel<S, F>" name=is_exhausted label=OffsetAmpPerChannel::is_exhausted
 //@end
@@ -404,14 +274,16 @@ pub trait Signal {
 //@item file=dasp_signal/src/lib.rs in="impl:<S> Signal for Delay<S>" kind=type name=Frame
     /// (source state, equilibrium frames still to emit)
     type State = (S::State, nat);
+    type Cfg = S::Cfg;
     open spec fn st(&self) -> Self::State { (self.signal.st(), self.n_frames as nat) }
+    open spec fn cfg(&self) -> Self::Cfg { self.signal.cfg() }
     open spec fn inv(&self) -> bool { self.signal.inv() }
-    open spec fn trans(&self, s: Self::State, f: Self::Frame, s2: Self::State) -> bool {
+    open spec fn trans(c: Self::Cfg, s: Self::State, f: Self::Frame, s2: Self::State) -> bool {
         if s.1 > 0 {
             // leading silence: the source is NOT pulled
             f == <S::Frame as Frame>::equilibrium_spec() && s2 == (s.0, (s.1 - 1) as nat)
         } else {
-            self.signal.trans(s.0, f, s2.0) && s2.1 == 0
+            S::trans(c, s.0, f, s2.0) && s2.1 == 0
         }
     }
     open spec fn exh(s: Self::State) -> bool { s.1 == 0 && S::exh(s.0) }
@@ -424,10 +296,12 @@ pub trait Signal {
 //@impl file=dasp_signal/src/lib.rs header="impl<S, F> Signal for Inspect<S, F>"
 //@item file=dasp_signal/src/lib.rs in="impl:<S, F> Signal for Inspect<S, F>" kind=type name=Frame
     type State = S::State;
+    type Cfg = S::Cfg;
     open spec fn st(&self) -> Self::State { self.signal.st() }
+    open spec fn cfg(&self) -> Self::Cfg { self.signal.cfg() }
     open spec fn inv(&self) -> bool { self.signal.inv() && forall|x: &S::Frame| call_requires(self.inspect, (x,)) }
     /// inspect yields the source frame unchanged
-    open spec fn trans(&self, s: Self::State, f: Self::Frame, s2: Self::State) -> bool { self.signal.trans(s, f, s2) }
+    open spec fn trans(c: Self::Cfg, s: Self::State, f: Self::Frame, s2: Self::State) -> bool { S::trans(c, s, f, s2) }
     open spec fn exh(s: Self::State) -> bool { S::exh(s) }
 //@fn file=dasp_signal/src/lib.rs in="impl:<S, F> Signal for Inspect<S, F>" name=next label=Inspect::next
 //@end
@@ -446,7 +320,9 @@ pub open spec fn clip_spec<X: Sample>(x: X, t: X::Signed) -> X {
 //@impl file=dasp_signal/src/lib.rs header="impl<S> Signal for ClipAmp<S>"
 //@item file=dasp_signal/src/lib.rs in="impl:<S> Signal for ClipAmp<S>" kind=type name=Frame
     type State = S::State;
+    type Cfg = (S::Cfg, <<S::Frame as Frame>::Sample as Sample>::Signed);
     open spec fn st(&self) -> Self::State { self.signal.st() }
+    open spec fn cfg(&self) -> Self::Cfg { (self.signal.cfg(), self.thresh) }
     /// side conditions: the negated threshold is representable (the property's own side condition) and the
     /// signed companion type's `<`, `>`, unary `-` follow their specs (true of every primitive; vstd)
     open spec fn inv(&self) -> bool {
@@ -454,15 +330,17 @@ pub open spec fn clip_spec<X: Sample>(x: X, t: X::Signed) -> X {
         && <<<S::Frame as Frame>::Sample as Sample>::Signed as PartialOrdSpec>::obeys_partial_cmp_spec()
         && <<<S::Frame as Frame>::Sample as Sample>::Signed as NegSpec>::obeys_neg_spec()
     }
-    open spec fn trans(&self, s: Self::State, f: Self::Frame, s2: Self::State) -> bool {
-        exists|x: S::Frame| #[trigger] self.signal.trans(s, x, s2)
-            && forall|i: int| 0 <= i < <S::Frame as Frame>::nch() ==> #[trigger] f.ch(i) == clip_spec(x.ch(i), self.thresh)
+    open spec fn trans(c: Self::Cfg, s: Self::State, f: Self::Frame, s2: Self::State) -> bool {
+        exists|x: S::Frame| #[trigger] S::trans(c.0, s, x, s2)
+            && forall|i: int| 0 <= i < <S::Frame as Frame>::nch() ==> #[trigger] f.ch(i) == clip_spec(x.ch(i), c.1)
     }
     open spec fn exh(s: Self::State) -> bool { S::exh(s) }
 //@fn file=dasp_signal/src/lib.rs in="impl:<S> Signal for ClipAmp<S>" name=next label=ClipAmp::next
 //@closure 0 "|s|"
 |s: <S::Frame as Frame>::Sample| -> (r: <S::Frame as Frame>::Sample)
             ensures r == clip_spec(s, self.thresh)
+//@tail
+        proof { let c = (old(self).signal.cfg(), old(self).thresh); assert(c.0 == old(self).signal.cfg() && c.1 == old(self).thresh); }
 //@end
 //@fn file=dasp_signal/src/lib.rs in="impl:<S> Signal for ClipAmp<S>" name=is_exhausted label=ClipAmp::is_exhausted
 //@end
@@ -476,12 +354,12 @@ pub open spec fn clip_spec<X: Sample>(x: X, t: X::Signed) -> X {
 //@spec
         requires old(self).signal.inv(),
         ensures
-            final(self).signal.inv(),
+            final(self).signal.inv(), final(self).signal.cfg() == old(self).signal.cfg(),
             // exhausted: None, and the signal is not touched ("then stop for good": the state is a fixpoint)
             S::exh(old(self).signal.st()) ==> r is None && final(self).signal.st() == old(self).signal.st(),
             // otherwise exactly one frame is pulled and yielded
             !S::exh(old(self).signal.st()) ==> r is Some
-                && old(self).signal.trans(old(self).signal.st(), r.unwrap(), final(self).signal.st()),
+                && S::trans(old(self).signal.cfg(), old(self).signal.st(), r.unwrap(), final(self).signal.st()),
 //@end
 //@endimpl
 
@@ -490,10 +368,10 @@ pub open spec fn clip_spec<X: Sample>(x: X, t: X::Signed) -> X {
 //@spec
         requires old(self).signal.inv(),
         ensures
-            final(self).signal.inv(),
+            final(self).signal.inv(), final(self).signal.cfg() == old(self).signal.cfg(),
             old(self).n == 0 ==> r is None && final(self).n == 0 && final(self).signal.st() == old(self).signal.st(),
             old(self).n > 0 ==> r is Some && final(self).n == old(self).n - 1
-                && old(self).signal.trans(old(self).signal.st(), r.unwrap(), final(self).signal.st()),
+                && S::trans(old(self).signal.cfg(), old(self).signal.st(), r.unwrap(), final(self).signal.st()),
 //@end
 //@fn file=dasp_signal/src/lib.rs in="impl:<S> Iterator for Take<S>" name=size_hint ret=r label=Take::size_hint
 //@spec
@@ -536,7 +414,7 @@ pub open spec fn clip_spec<X: Sample>(x: X, t: X::Signed) -> X {
                     && final(self).signal.st() == old(self).signal.st())
                 // ... otherwise exactly one frame is pulled and its channel 0 is yielded
                 && (!S::exh(old(self).signal.st()) ==> exists|g: S::Frame|
-                    #[trigger] old(self).signal.trans(old(self).signal.st(), g, final(self).signal.st())
+                    #[trigger] S::trans(old(self).signal.cfg(), old(self).signal.st(), g, final(self).signal.st())
                     && r == Some(g.ch(0)) && final(self).at(g, 1))
             ),
         decreases (if old(self).current_frame is Some { 1int } else { 0int }),
@@ -653,9 +531,9 @@ pub open spec fn fi_stepn<I: Iterator>(s: (I::ISt, Option<I::Item>), n: nat) -> 
 { if n == 0 { s } else { fi_step::<I>(fi_stepn::<I>(s, (n - 1) as nat)) } }
 
 /// the relation IS that function (so FromIterator is deterministic)
-pub proof fn lemma_from_iter_deterministic<I: Iterator>(sig: FromIterator<I>, s: (I::ISt, Option<I::Item>), f: I::Item, s2: (I::ISt, Option<I::Item>))
+pub proof fn lemma_from_iter_deterministic<I: Iterator>(s: (I::ISt, Option<I::Item>), f: I::Item, s2: (I::ISt, Option<I::Item>))
     where I::Item: Frame
-    ensures sig.trans(s, f, s2) <==> (s2 == fi_step::<I>(s)
+    ensures FromIterator::<I>::trans((), s, f, s2) <==> (s2 == fi_step::<I>(s)
         && f == (match s.1 { Some(x) => x, None => <I::Item as Frame>::equilibrium_spec() }))
 {}
 
